@@ -1,4 +1,5 @@
 import LyModel.Val.LemmasUnion
+import LyModel.Props.C03Ident
 /-!
 # C03 — `union` (RFC 7950 §9.12): acceptance, canonical form, equality, ordering, LYB
 
@@ -252,5 +253,44 @@ example : unlybU f412U (lybU f412U ⟨1, .num 1⟩) = .ok ⟨1, .num 1⟩ :=
   union_lyb_roundtrip f412U f412U_wf (by decide) _ (ustored_valid ⟨Generated.LYD_HINT_DATA, [43, 49], f412U_stored.1⟩)
 -- a bad size and a bad index are refused
 example : unlybU f412U [1, 0, 0] = .error (.val .LybSize) ∧ unlybU f412U [2, 0, 0, 0, 49] = .error (.val .LybSize) := by decide
+
+/-! ## which members satisfy the laws -/
+
+/-- Every modelled member type — integers, decimal64, boolean, enumeration, bits, string with length, string with patterns — satisfies the
+    member laws the theorems above assume (`hwf : ∀ m ∈ ms, MLaws m`); the proofs are the per-type theorems of `Props/C03.lean`. -/
+theorem member_laws_hold (m : MTy) (hwf : m.WF) : MLaws m.plug :=
+  mlaws m hwf
+
+/-- identityref as a union member (`union { type identityref {…}; type string; }`), in a format whose prefixes are the module names
+    (JSON, LYB, canonical), with the REPAIRED sort callback (`fixes/F411.diff`): the laws hold — for either variant of the base
+    check —, so every theorem above applies to unions with identityref members. -/
+theorem identityref_member_laws (allBases : Bool) (c : Ident.IdCtx) (hwf : c.WF) (bases : List Ident.Ident) (pmJ : Ident.PrefixMap)
+    (hj : JsonLike c pmJ) : MLaws (idrefPlugWith allBases true c bases pmJ pmJ) :=
+  idref_mlaws allBases c hwf bases pmJ hj
+
+/-- `union { type identityref { base a:top; } type string; }` over the diamond of `Props/C03Ident.lean`, pinned sort callback -/
+def idU : List Plug :=
+  [idrefPlugWith false false C03Ident.diamond [C03Ident.dTop] C03Ident.dJson C03Ident.dJson, (MTy.base (.str [])).plug]
+
+/-- With the PINNED identityref sort callback (names only, finding F411) the defect propagates into unions: `b:left` and `c:left`, both
+    stored by the identityref member, are unequal but sort-equal — `union_sort_consistent_with_eq` is false for this member list. -/
+theorem union_sort_consistent_with_eq_idref_fails :
+    ¬ ∀ a b : UVal, UValid idU a → UValid idU b → (sortU idU a b = 0 ↔ cmpEqU idU a b = true) := by
+  intro h
+  have ha : UValid idU ⟨0, .str [98, 58, 108, 101, 102, 116]⟩ :=
+    ustored_valid ⟨Generated.LYD_HINT_DATA, [98, 58, 108, 101, 102, 116], by decide⟩
+  have hb : UValid idU ⟨0, .str [99, 58, 108, 101, 102, 116]⟩ :=
+    ustored_valid ⟨Generated.LYD_HINT_DATA, [99, 58, 108, 101, 102, 116], by decide⟩
+  exact absurd ((h _ _ ha hb).mp (by decide)) (by decide)
+
+-- non-vacuity of `identityref_member_laws`: the diamond with its module-name prefix map is JSON-like, and the union stores "b:left" with the
+-- identityref member, "b:left " (trailing space) with the string member
+example : JsonLike C03Ident.diamond C03Ident.dJson := by
+  intro df hdf
+  simp only [C03Ident.diamond, List.mem_cons, List.mem_nil_iff, or_false] at hdf
+  rcases hdf with rfl | rfl | rfl | rfl | rfl | rfl <;> decide
+example : storeU idU Generated.LYD_HINT_DATA [98, 58, 108, 101, 102, 116] = .ok ⟨0, .str [98, 58, 108, 101, 102, 116]⟩ ∧
+    storeU idU Generated.LYD_HINT_DATA [98, 58, 108, 101, 102, 116, 32] = .ok ⟨1, .str [98, 58, 108, 101, 102, 116, 32]⟩ ∧
+    storeU idU Generated.LYD_HINT_DATA [97, 58, 116, 111, 112] = .ok ⟨1, .str [97, 58, 116, 111, 112]⟩ := by decide
 
 end LyModel.Props.C03Union
